@@ -1,5 +1,5 @@
 #!/bin/bash
-# mut_taiko.sh <name> <sed-expr> <file-rel> <prop> <only-list>: ad-hoc mutation run on a patched copy (VERIF_REPO)
+# mutate_run.sh <name> <sed-expr> <file-rel> <prop> <only-list>: ad-hoc mutation run on a patched copy (VERIF_REPO)
 name=$1; sedexpr=$2; f=$3; prop=$4; only=$5
 D=$(mktemp -d /tmp/mut-$name-XXXX)
 rsync -a --exclude /target --exclude /.git /repo/ $D/repo/
